@@ -58,10 +58,11 @@ const (
 	tkOtherSig         // VerifierID = miner i, signature = miner j's valid ticket signature
 	tkEmpty            // VerifierID = miner, empty signature
 	tkRetired          // VerifierID = registered node outside the magic block
+	tkOutsideMiner     // VerifierID = miner-type node the NUT knows (registry) that is not in the round's magic block, valid signature by its key
 	tkKinds
 )
 
-var tkNames = []string{"valid", "forged", "wronghash", "nonminer", "unknown", "othersig", "emptysig", "retired"}
+var tkNames = []string{"valid", "forged", "wronghash", "nonminer", "unknown", "othersig", "emptysig", "retired", "outsideminer"}
 
 func genC31(seed uint64, tier string) *sim.Plan {
 	r := sim.NewRNG(seed).Child("plan")
@@ -128,14 +129,25 @@ func genC31(seed uint64, tier string) *sim.Plan {
 				// a well-formed notarization: k distinct valid tickets, k around the threshold, sometimes spoiled by one bad ticket
 				thr := (n*int(p.Cfg["threshold"]) + 99) / 100
 				k := []int{thr - 1, thr, thr, thr + 1, n - 1}[r.Intn(5)]
+				var spoil []int64
+				if byz > 0 && r.Bool(0.35) {
+					spoil = tkt()
+					if r.Bool(0.6) {
+						// validly signed by a node the NUT knows that is no miner of this round's magic block,
+						// on top of threshold-1 genuine tickets
+						spoil = []int64{int64([]int{tkOutsideMiner, tkOutsideMiner, tkNonMiner, tkRetired}[r.Intn(4)]), int64(r.Intn(n - 1)), 0}
+						if r.Bool(0.7) {
+							k = thr - 1
+						}
+					}
+				}
 				k = min(max(k, 0), n-1)
 				for _, m := range r.Perm(n - 1)[:k] {
 					st.I = append(st.I, int64(tkValid), int64(m), 0)
 				}
-				if byz > 0 && r.Bool(0.3) {
-					t := tkt()
+				if spoil != nil {
 					at := 2 + 3*r.Intn(k+1)
-					st.I = append(st.I[:at], append(t, st.I[at:]...)...)
+					st.I = append(st.I[:at], append(spoil, st.I[at:]...)...)
 				}
 			} else {
 				st.I = append(st.I, tkts(n+1)...)
@@ -216,6 +228,9 @@ func (c *c31) mkTicket(kind int, signer int, arg int64, b *block.Block) *block.V
 		return &block.VerificationTicket{VerifierID: m.ID(), Signature: sign(o, b.Hash)}
 	case tkEmpty:
 		return &block.VerificationTicket{VerifierID: m.ID(), Signature: ""}
+	case tkOutsideMiner:
+		u := w.OutsideMiners[signer%len(w.OutsideMiners)]
+		return &block.VerificationTicket{VerifierID: u.ID(), Signature: sign(u, b.Hash)}
 	default:
 		u := w.Retired[signer%len(w.Retired)]
 		return &block.VerificationTicket{VerifierID: u.ID(), Signature: sign(u, b.Hash)}
